@@ -115,6 +115,7 @@ type Exec struct {
 	mapOrder  int
 	poolMode  int
 	pools     map[*value][]value
+	syncMaps  map[*value]*syncMapModel
 	mapRanges int
 
 	rtPanics         int
@@ -548,6 +549,7 @@ func (p *Program) runPath(sol *Solver, q *workQueue, it workItem, cfg *RunConfig
 		truthCache:  map[*Term]bool{},
 		varSeq:      map[string]int{},
 		pools:       map[*value][]value{},
+		syncMaps:    map[*value]*syncMapModel{},
 		fnSeen:      map[*ssa.Function]bool{},
 		extSeen:     map[string]bool{},
 		tier:        cfg.Tier,
